@@ -1,5 +1,6 @@
 import Cherab.Model.Groups
 import Cherab.Gen.GroupTable
+import Cherab.Props.C15
 
 /-!
 # C15 — the generated descriptor table is well-formed
@@ -42,5 +43,24 @@ theorem table_special_wf : ∀ d ∈ table,
   intro d hd
   have h := table_wf d hd
   refine ⟨?_, ?_, ?_⟩ <;> intro hn <;> simpa [Descriptor.admissible, hn] using h
+
+/-! ### proof-deepening pass: the state-machine theorems of `Cherab.Props.C15`, instantiated at the table generated from /repo -/
+
+open Cherab.Props.C15 in
+/-- for every group class of /repo, every world and every operation of the group API whose values the members accept:
+a refused operation (wrong length, wrong container, wrong-typed element anywhere in a member list, wrong-typed argument
+of the add method, scalar where only a sequence is allowed, …) leaves the world exactly as it was -/
+theorem generated_rejected_unchanged (ci : ClassInfo) (w : World) (op : Op) (hacc : OpAcceptable table ci op)
+    (he : (step table ci w op).2 ≠ none) : (step table ci w op).1 = w :=
+  step_rejected_unchanged table table_wf ci w op hacc he
+
+open Cherab.Props.C15 in
+/-- for every group class of /repo and every history on one group of a scene with several groups: every member of every
+group keeps that group as scene-graph parent (so no observer is in two groups), as long as the history does not adopt
+members of another group -/
+theorem generated_scene_inv (ci : ClassInfo) (ops : List Op) (s : Scene) (hi : s.Inv ci)
+    (hforeign : ∀ op ∈ ops, ∀ u ∈ adoptees op, ∀ g ∈ s.others, u ∉ g.2) :
+    (ops.foldl (fun s op => s.step table ci op) s).Inv ci :=
+  scene_inv_run table table_wf ci ops s hi hforeign
 
 end Cherab.Props.C15Table
